@@ -216,3 +216,15 @@ prop("C06", "exploration", (48, 1200),
      technique="deterministic simulation: aggregator node fed valid, faulted and single-check inner proofs; the native verifier is the reference model for the in-circuit verifier",
      text="Seeded exploration of the in-circuit verifier against the native verifier as reference model, with inner proofs that fail exactly one native check so that a check missing only in the circuit version is not masked.",
      note="Outer acceptance is decided by witness generation + the statement checker SAT (which trusts the gates' eval_filtered); one outer proof per scenario is fully proved and verified. Inner circuits are kept <= 2^9 rows and <= 8 queries so that the outer circuit stays at 2^10-2^12 rows.")
+
+prop("C20", "exploration", (36, 600),
+     rule="one run = either (11/12) a conditional aggregator for one inner circuit shape (seeded program x recursion-compatible configuration; a sibling circuit with the same common data and another key is obtained by changing one constant): "
+          "inner (proof, key) variants {valid, element-tampered, false statement from the Byzantine prover, valid proof of the sibling circuit, right proof with the sibling's key, sibling's proof with the right key}; "
+          "cells of the matrix condition x variant0 x variant1 for conditionally_verify_proof (every cell in which the two branches differ in validity, a third of the others) and condition x variant for conditionally_verify_proof_or_dummy; "
+          "the dummy proof of dummy_circuit(common) verifies; or (1/12) a cyclic chain of length 1-3 after the base case (cyclic_base_proof): every link proves, verifies, passes check_cyclic_proof_verifier_data and carries reference-correct "
+          "public inputs (textbook Poseidon iteration, counter), and +1 on EVERY embedded verifier-data element is caught by check_cyclic_proof_verifier_data (every 7th also through verify). "
+          "Oracle for the matrix: outer assignment + witness generation + statement checker accept  <=>  the native verifier accepts the SELECTED proof under the SELECTED key. "
+          "distinct = (scenario, cell); non-trivial = the two branches differ in validity (conditional), every cell (or-dummy, cyclic)",
+     technique="deterministic simulation: aggregator with two inner proofs and a condition (full validity matrix), dummy branch, and cyclic chains as histories; native verifier as reference model",
+     text="Seeded exploration of conditional verification as a matrix over condition and validity of each branch and key, and of cyclic recursion as multi-step histories with alteration of the embedded verifier data.",
+     note="Shapes for which the library's dummy_circuit cannot reproduce the common data (a build-time assert) or whose cap height differs from the outer configuration's are outside the or-dummy variant's preconditions and skip that part (probe counts both). Cyclic chains use the standard recursion configuration (2^12-row circuit).")
